@@ -88,6 +88,7 @@ def readCmd (path : String) : IO UInt32 := do
     match readRaw b with
     | .ok r => for d in r.dds do IO.println s!"# DD {d.tag} {d.ref} {d.off} {d.len}"
     | .error _ => pure ()
+    for (cl, d) in allDescComplaints b do IO.println s!"# DESC {cl} {d}"
     match e with
     | .fuel => IO.println "WF FAIL fuel chain walk ran out of fuel"
     | .bad c d => IO.println s!"WF FAIL {c} {d}"
